@@ -17,6 +17,7 @@ lists observed before the step (Refine/DieOps.v: trace_ok, C11_history_sound), s
 object remembers between calls besides its lists shows as a disagreement.
 Direct oracle: Fractions only, independent of the model."""
 from fractions import Fraction as F
+from math import gcd
 
 from harness import core, fr
 from harness.core import gq, gz, gbool, glist
@@ -36,6 +37,11 @@ ASSUMPTIONS = [
     "71 x 50 region with 1.42, where even the orientation matters) is run but neither compared nor judged (counted in the evidence)",
     "initial_grid divides by the row/column count: compared exactly when the step is dyadic, within 16 roundings at the die's magnitude otherwise",
     "the model is written for the code as repaired by fixes/C11-phase2-aspect.diff",
+    "absolute scale: dies in other units (binary factors: exact, compared with the model up to n = 130; decimal factors and larger "
+    "counts: direct oracle only, the pieces must lie inside the region they were cut from within 1e-9 of the die's extent, overlap by "
+    "at most (1e-9 extent)^2 and cover each former region within 1e-9 of its area; counts, tags and aspect ratios exactly on the floats); "
+    "process state: when another die was built first (it defines the class-wide Rectangle tolerances) or the coordinates are decimal, the "
+    "refinement is judged only if the regions it starts from do not overlap (how a die is decomposed under foreign tolerances is C01 / C20)",
     "histories: the model of a call is a function of the object's five lists before the call and of the call's own arguments "
     "(DieOps.step_ok); a history is cut before the first split whose rounded aspect-ratio test would decide differently from the "
     "exact quotient (float-boundary, counted); a history whose grid cells are not binary fractions is compared step by step "
@@ -225,7 +231,67 @@ def gen_history(rng):
     return case
 
 
+# absolute scale: the same layouts in other units (a 10 mm die in metres, a die in nanometres); binary factors keep every
+# halving exact (model comparison as usual), decimal factors go to the direct oracle with a tolerance
+SCALES_DY = [F(1, 1024), F(1, 1024), F(1, 128), F(1, 16), F(1), F(64), F(1024), F(2 ** 20)]
+SCALES_DEC = [F(1, 1000), F(1, 1000), F(1, 100), F(1, 100), F(1, 10), F(10), F(1000), F(10 ** 6)]
+BIG_N = [64, 100, 128, 256, 300, 512, 600, 1000, 1024]
+PRE_FACTORS = [F(1, 1000), F(1, 8), F(1), F(8), F(1000), F(1000), F(1000), F(10 ** 6)]
+
+
+def scale_rect(d, s):
+    return dict(d, cx=d["cx"] * s, cy=d["cy"] * s, w=d["w"] * s, h=d["h"] * s)
+
+
+def scaled(case, s):
+    """the case in other units"""
+    return dict(case, W=case["W"] * s, H=case["H"] * s, regions=[scale_rect(d, s) for d in case["regions"]],
+                fixed=[scale_rect(d, s) for d in case["fixed"]], scale=s)
+
+
+def gen_pre(rng, case):
+    """another die built (and sometimes refined) FIRST in the same process: the first design of a process defines the
+    class-wide tolerances of Rectangle, here from a die up to 1000 times (seldom 10^6 times) larger or smaller"""
+    f = rng.choice(PRE_FACTORS)
+    pre = {"W": case["W"] * f * rng.choice([1, 1, 2, 3]), "H": case["H"] * f * rng.choice([1, 1, 2, 3])}
+    if rng.random() < 0.4:
+        pre["split"] = [rng.choice([1.5, 2.0, 3.0]), rng.choice([1, 4, 16])]
+    return pre
+
+
+def gen_scaled(rng):
+    """refinement of a die that is small or large in absolute units, mostly into many regions, often after another die"""
+    W, H, regions, fixed = gen_layout(rng, maxk=3)
+    exact = rng.random() < 0.5
+    s = rng.choice(SCALES_DY if exact else SCALES_DEC)
+    n = rng.choice(BIG_N) if rng.random() < 0.7 else rng.randrange(1, 65)
+    case = scaled({"kind": "split", "W": W, "H": H, "regions": regions, "fixed": fixed, "r": gen_r(rng), "n": n,
+                   "style": gen_style(rng)}, s)
+    if rng.random() < 0.5:
+        case["pre"] = gen_pre(rng, case)
+    return case
+
+
+def oracle_only(case):
+    """cases decided by the direct oracle alone: decimal scale factors (positions k*W/2^j are rounded) and counts beyond
+    what the model comparison is run for"""
+    s = case.get("scale")
+    return s is not None and case["kind"] == "split" and (not dyadic(s) or case["n"] > 130)
+
+
 def gen_case(rng):
+    x = rng.random()
+    if x < 0.07:
+        return gen_scaled(rng)
+    case = gen_case_(rng)
+    if case["kind"] == "hist" and rng.random() < 0.12:
+        case = scaled(case, rng.choice(SCALES_DY))
+    if case["kind"] != "raw" and rng.random() < 0.1:
+        case["pre"] = gen_pre(rng, case)
+    return case
+
+
+def gen_case_(rng):
     x = rng.random()
     if x < 0.36:
         return gen_history(rng)
@@ -343,9 +409,24 @@ def float_boundary(rects, r):
     return False
 
 
+def build_pre(case):
+    """the die of case['pre'], built (and refined) before the judged one in the same process"""
+    pre = case.get("pre")
+    if not pre:
+        return
+    from frame.die.die import Die
+    try:
+        d = Die(f"{fnum(pre['W'])}x{fnum(pre['H'])}")
+        if pre.get("split"):
+            d.split_refinable_regions(rarg(pre["split"][0]), pre["split"][1])
+    except Exception:
+        pass
+
+
 def build_die(case):
     from frame.die.die import Die
     from frame.netlist.netlist import Netlist
+    build_pre(case)
     net = Netlist(netlist_text(case)) if case["fixed"] else None
     form = case.get("dieform", "text")
     if form == "string" and not case["regions"]:
@@ -433,6 +514,7 @@ def run_impl_(case):
         from frame.die.die import Die
         from frame.netlist.netlist import Netlist
         try:
+            build_pre(case)
             net = Netlist(netlist_text(case)) if case["fixed"] else None
             die = Die(die_text(case), net)
         except AssertionError as e:
@@ -528,6 +610,8 @@ def to_coq(case, obs):
         return "false"
     if st == "hist":
         return hist_to_coq(case, obs)
+    if oracle_only(case):
+        return "true"
     if case["kind"] == "raw":
         RS, r, n = grects(case["rects"]), gq(case["r"]), gz(case["n"])
         if st != "ok":
@@ -568,17 +652,45 @@ def geom(d):
     return tuple(core.frac(d[k]) for k in ("cx", "cy", "w", "h")) + (d["region"], d["fixed"], d["hard"], d["loc"])
 
 
-def check_refinement(before, after, r, n):
-    """`after` refines the non-overlapping list `before`: count, containment + tag, tiling, aspect."""
+def overlapping_pair(boxes, tol_area=F(0)):
+    """indices of two boxes that overlap by more than tol_area, or None.  Exact: the coordinates (Fractions) are brought
+    to a common denominator and compared as integers; sweep along x (about n^1.5 comparisons for a tiling)."""
+    if len(boxes) < 2:
+        return None
+    den = 1
+    for b in boxes:
+        for v in b:
+            den = den * v.denominator // gcd(den, v.denominator)
+    ib = [tuple(v.numerator * (den // v.denominator) for v in b) for b in boxes]
+    tol = tol_area * den * den
+    order = sorted(range(len(ib)), key=lambda i: ib[i][0])
+    for p, i in enumerate(order):
+        a0, a1, a2, a3 = ib[i]
+        for j in order[p + 1:]:
+            b0, b1, b2, b3 = ib[j]
+            if b0 >= a2:
+                break
+            w = min(a2, b2) - b0                      # b0 >= a0: the list is sorted
+            h = min(a3, b3) - max(a1, b1)
+            if w > 0 and h > 0 and w * h > tol:
+                return i, j
+    return None
+
+
+def check_refinement(before, after, r, n, rel=F(0)):
+    """`after` refines the non-overlapping list `before`: count, containment + tag, tiling, aspect.  rel = 0: exactly
+    (binary coordinates); otherwise positions may be off by rel * (the extent of `before`) - decimal coordinates."""
     if len(after) < n:
         return f"only {len(after)} refinable regions, {n} requested"
     bb = [box(d) for d in before]
+    ext = max([F(0)] + [max(abs(v) for v in b) for b in bb])
+    tolc = rel * ext
     got = [F(0)] * len(before)
     for a in after:
         if core.frac(a["w"]) <= 0 or core.frac(a["h"]) <= 0:
             return "a region of non-positive size"
         ab = box(a)
-        owners = [i for i, b in enumerate(bb) if inside(ab, b)]
+        owners = [i for i, b in enumerate(bb) if inside(ab, b, tolc)]
         if not owners:
             return "a refined region does not lie inside any former refinable region"
         owners = [i for i in owners if before[i]["region"] == a["region"] and before[i]["fixed"] == a["fixed"]
@@ -586,13 +698,11 @@ def check_refinement(before, after, r, n):
         if len(owners) != 1:
             return "a refined region does not carry the tag/attributes of the region it was cut from"
         got[owners[0]] += core.frac(a["w"]) * core.frac(a["h"])
-    ab = [box(a) for a in after]
-    for i in range(len(ab)):
-        for j in range(i + 1, len(ab)):
-            if ov(ab[i], ab[j]) > 0:
-                return "two refined regions overlap"
+    if overlapping_pair([box(a) for a in after], tolc * ext) is not None:
+        return "two refined regions overlap"
     for i, b in enumerate(before):
-        if got[i] != core.frac(b["w"]) * core.frac(b["h"]):
+        area = core.frac(b["w"]) * core.frac(b["h"])
+        if abs(got[i] - area) > rel * area:
             return "the refined regions do not cover a former refinable region exactly"
     for a in after:
         if aspect(a) > core.frac(r):
@@ -600,9 +710,8 @@ def check_refinement(before, after, r, n):
     return None
 
 
-def non_overlapping(rects):
-    bs = [box(d) for d in rects]
-    return all(ov(bs[i], bs[j]) == 0 for i in range(len(bs)) for j in range(i + 1, len(bs)))
+def non_overlapping(rects, tol_area=F(0)):
+    return overlapping_pair([box(d) for d in rects], tol_area) is None
 
 
 def admissible(r, n):
@@ -622,7 +731,7 @@ def oracle_history(case, obs):
             else:
                 why = None
         else:
-            sub = {"kind": op[0], "W": case["W"], "H": case["H"]}
+            sub = {"kind": op[0], "W": case["W"], "H": case["H"], "pre": case.get("pre")}
             if op[0] == "split":
                 sub.update(r=op[1], n=op[2])
             else:
@@ -674,7 +783,15 @@ def oracle(case, obs):
             return None
         if not admissible(case["r"], case["n"]):
             return "inadmissible request (n < 1 or limit <= 1.415) accepted"
-        return check_refinement(before, after, case["r"], case["n"])
+        s = case.get("scale")
+        rel = F(0) if s is None or dyadic(s) else F(1, 10 ** 9)
+        if case.get("pre") or rel:
+            # a die built under tolerances defined by another design, or from decimal coordinates: how it is decomposed is
+            # C01's / C20's subject; the refinement is judged when the regions it starts from do not overlap
+            ext = max(case["W"], case["H"])
+            if not non_overlapping(before, rel * ext * ext):
+                return None
+        return check_refinement(before, after, case["r"], case["n"], rel)
     # grid
     nr, nc = case["nrows"], case["ncols"]
     empty = not (b["spec"] or b["blockages"] or b["fixed"]) and len(b["ground"]) == 1
@@ -740,7 +857,13 @@ def shrink(case):
             yield dict(case, dieform="text")
         if case.get("noise"):
             yield dict(case, noise=None)
+        if case.get("pre"):
+            yield dict(case, pre=None)
         return
+    if case.get("pre"):
+        yield dict(case, pre=None)
+        if case["pre"].get("split"):
+            yield dict(case, pre={k: v for k, v in case["pre"].items() if k != "split"})
     if case["kind"] in ("split", "raw"):
         n = case["n"]
         for m in sorted({1, 2, n // 2, n - 1}):
@@ -793,13 +916,22 @@ def run(ctx, out, replay=None):
                 "(splits with equal / tighter / looser limits and growing or smaller counts, initial_grid first / after split(r, 1) / "
                 "refused after a real split / twice, refused splits, floorplanning_rectangles() in between; die built from YAML text, a "
                 "dict or the '<W>x<H>' string), lists read and compared after every step; non-trivial = n > 1, more than one grid "
-                "cell, or at least two modifying calls; distinct by canonical hash")
+                "cell, or at least two modifying calls; distinct by canonical hash; ABSOLUTE SCALE (7% of the cases + an eighth of "
+                "the histories): the same layouts in other units - binary factors 2^-10 .. 2^20 (exact; model comparison up to n = 130) "
+                "and decimal factors 10^-3 .. 10^6 (direct oracle, positions within 1e-9 of the die) - refined into up to 1024 regions; "
+                "PROCESS STATE (half of those, a tenth of the others): another die, up to 1000 times (seldom 10^6 times) larger or "
+                "smaller, is built and sometimes refined first in the same process, so the class-wide Rectangle tolerances come from it")
     cases = []
     if replay and "case" in replay:
         cases.append(fr.unjson(replay["case"]))
     cases += fr.load_corpus("C11")
     while len(cases) < n:
         cases.append(gen_case(ctx.rng))
+    for c in cases:
+        if c.get("scale") is not None:
+            out.count("scale:" + ("binary" if dyadic(c["scale"]) else "decimal") + ("/oracle-only" if oracle_only(c) else ""))
+        if c.get("pre"):
+            out.count("after-another-die")
     fr.run_cases(ctx, out, cases, run_impl, to_coq, oracle, failure_key, HEADER,
                  dist_key=dist_key, nontrivial=nontrivial, shard=40, shrink=shrink)
     out.extra["skipped_float_boundary_cases"] = SKIPPED["float-boundary"]
@@ -811,7 +943,7 @@ def greedy_evidence(ctx, out, cases):
     implementation's list is, up to order, the one the model's own algorithm computes."""
     exprs = []
     for case in cases:
-        if case["kind"] in ("grid", "hist"):
+        if case["kind"] in ("grid", "hist") or oracle_only(case):
             continue
         obs = run_impl(case)
         if obs["status"] != "ok":
